@@ -74,7 +74,7 @@ CHECKS = {
    text="Exhaustive over orders 1..4 (6), interior multiplicities, basis indices, derivative orders and sample points including the right end point, where the derivative must be the left derivative.",
    note="Oracle evaluated in doubles in the monomial basis with term-sum scaling; integer-valued and random real knots."),
  "C15": dict(engine="spline", cat="model_checking", design="5/C15",
-   technique="Recorded csolve + evaluations of PPSpline<f64/Dual/Dual2> validated by TLC: collocation rows (interpolation and end derivative conditions) recomputed from the logged coefficients with DualAlgebra, every evaluation = sum c_i D^m B_i(x) for the 3x3 spline-type x abscissa-type table (two cells must be refused), polynomial reproduction, unit-data sensitivities, mismatched counts rejected; the Python-facing spline classes (method family x abscissa-kind table with its TypeError cells, vector methods, read-back) validated by the same rules (PyOK)",
+   technique="Recorded csolve + evaluations of PPSpline<f64/Dual/Dual2> validated by TLC: collocation rows (interpolation and end derivative conditions) recomputed from the logged coefficients with DualAlgebra, every evaluation = sum c_i D^m B_i(x) for the 3x3 spline-type x abscissa-type table (two cells must be refused), polynomial reproduction, unit-data sensitivities, mismatched counts rejected; the Python-facing spline classes (method family x abscissa-kind table with its TypeError cells, vector methods, read-back) validated by the same rules (PyOK); the object's life (SplineLife.tla: solve / refused solve / evaluate / copy / store-and-load) model-checked by TLC on every history of up to 4 calls and every history of up to 3 calls replayed on real objects of the three core types and the three Python-facing classes, validated call by call by a trace specification (coefficients bit-identical to a fresh solve, refusals inert)",
    text="Seeded scenarios over orders 2..6 and four site layouts (incl. natural / clamped cubic with asymmetric end conditions and least squares); the basis oracle is C14's model-checked definition.",
    note="Model part is C14's basis model (the solved-spline layer is validated, not exhaustively enumerated); simple interior knots."),
  "C16": dict(engine="persist", cat="model_checking", design="5/C16",
@@ -118,7 +118,7 @@ ENGINES = [
       serves_properties=["C11", "C12"], kind_free_text="TLA+ model of interval selection and order switching checked by TLC + history validation of real curves"),
  dict(name="gauss", path="spec/Gauss.tla spec/MC_Gauss.tla spec/Trace_Gauss.tla spec/Linalg.tla spec/Trace_Linalg.tla harness/src/gauss.rs lib/checks_gauss.py",
       serves_properties=["C13"], kind_free_text="exact-rational TLA+ model of Gaussian elimination checked by TLC + residual validation of the real solvers"),
- dict(name="spline", path="spec/BSpline.tla spec/MC_BSpline.tla spec/Trace_BSpline.tla harness/src/spline.rs lib/checks_spline.py",
+ dict(name="spline", path="spec/BSpline.tla spec/MC_BSpline.tla spec/Trace_BSpline.tla spec/SplineLife.tla spec/MC_SplineLife.tla spec/Gen_SplineLife.tla spec/Trace_SplineLife.tla harness/src/spline.rs lib/checks_spline.py",
       serves_properties=["C14", "C15"], kind_free_text="declarative piecewise-polynomial B-spline basis checked by TLC + validation of recorded basis values and solved splines"),
  dict(name="persist", path="spec/Persist.tla spec/MC_Persist.tla spec/Trace_Persist.tla harness/src/persist.rs lib/checks_persist.py",
       serves_properties=["C16", "C20"], kind_free_text="save/load protocol model checked by TLC + validation of recorded round trips, mutated-document loads and constructor grids"),
